@@ -75,6 +75,14 @@ func main() {
 		}
 		os.Exit(1)
 	}
+	if fix != "" && !p.Fixtures {
+		for _, n := range p.LoadNotes {
+			if len(n) > 300 {
+				n = n[:300]
+			}
+			fmt.Println("FIXTURES-DISABLED (positive controls do not type-check against the current tree; rules run without them):", n)
+		}
+	}
 	fmt.Printf("loaded %d packages, %d function bodies in %.1fs (fixtures=%v)\n", len(p.Pkgs), len(p.AllFuncs), p.LoadSecs, p.Fixtures)
 	code := 0
 	for _, id := range ids {
